@@ -65,6 +65,32 @@ theorem c04_no_nondeterministic_evaluated_deep {g : Graph} {tree : Nat → DTree
   obtain ⟨plan, _, rfl, _⟩ := partialPlan_ok h
   exact kept_deep hf plan ins
 
+/-- Graph-level non-vacuity of the deep theorem with a *non-flat* tree.  Operator 2 is
+`If(0){then: [Loop{[Identity, inner]}], else: [Identity]}` producing value 1; the IR flag of
+operator 2 is `DTree.deep` of that tree.  With `inner = RandomUniform` (own flag false, two
+levels down) the flag is false, the operator is pruned and `partial_run([], [1])` returns
+nothing; with `inner = Neg` it is kept, value 1 is returned, and the deep theorem says every
+own flag in the tree — at depth 0, 1 and 2 — is set. -/
+def nestedTree (inner : Bool) : DTree :=
+  .node true [[.node true [[.node true [], .node inner []]]], [.node true []]]
+
+def nestedGraph (inner : Bool) : Graph :=
+  { nodes := [.constant, .value,
+      .operator { inputs := [some 0], outputs := [some 1],
+                  deterministic := (nestedTree inner).deep }] }
+
+def nestedTrees (inner : Bool) : Nat → DTree := fun p =>
+  if p = 2 then nestedTree inner else .node true []
+
+example : DeepFlags (nestedGraph false) (nestedTrees false) := deepFlags_of_check (by decide)
+example : DeepFlags (nestedGraph true) (nestedTrees true) := deepFlags_of_check (by decide)
+example : partialPlan (nestedGraph false) [] [1] = .ok ([], []) := by decide
+example : partialPlan (nestedGraph true) [] [1] = .ok ([2], [1]) := by decide
+example : ∀ t' ∈ (nestedTrees true 2).nodes, t'.own = true :=
+  c04_no_nondeterministic_evaluated_deep (deepFlags_of_check (by decide))
+    (show partialPlan (nestedGraph true) [] [1] = .ok ([2], [1]) by decide) 2 (by decide)
+example : (nestedTrees true 2).nodes.length = 5 := by decide
+
 /-- The deep flag is exactly "no operator at any depth is flagged non-deterministic". -/
 theorem c04_deep_flag_iff (t : DTree) : t.deep = true ↔ ∀ t' ∈ t.nodes, t'.own = true :=
   deep_iff t
